@@ -167,6 +167,73 @@ Section IncludeFacts.
     intros Hs Hk Hn Hl. simpl. rewrite Hs. rewrite Hk.
     destruct fname; try congruence; simpl in *; rewrite Hl; reflexivity.
   Qed.
+
+  (* ---- chains of include fields in one scope: a left fold of the merge, in field order ---- *)
+  Theorem includes_app a b t :
+    do_includes load_file (a ++ b) t =
+      match do_includes load_file a t with
+      | Ok t1 => do_includes load_file b t1
+      | Err e => Err e
+      | Unmodelled => Unmodelled
+      end.
+  Proof.
+    revert t; induction a as [|[k fid] a IH]; intros t; [reflexivity|].
+    cbn [app do_includes].
+    destruct (tget k t) as [[v|m]|]; try apply IH.
+    - destruct v; try apply IH;
+        match goal with |- context [load_file ?f ?x] => destruct (load_file f x); try reflexivity; apply IH end.
+    - destruct (load_file fid (o_tree (TMap m))); try reflexivity; apply IH.
+  Qed.
+
+  (* two include fields: the second file name is read from the ALREADY merged tree (so the first file
+     may name the second), and the second file is merged over the result of the first *)
+  Theorem include_chain2 k1 f1 k2 f2 doc n1 c1 n2 c2 :
+    tget k1 doc = Some (TLeaf n1) -> n1 <> PNone -> load_file f1 n1 = Ok c1 ->
+    tget k2 (combine doc c1) = Some (TLeaf n2) -> n2 <> PNone -> load_file f2 n2 = Ok c2 ->
+    process load_file (ISchema [(k1, f1); (k2, f2)] []) doc = Ok (combine (combine doc c1) c2).
+  Proof.
+    intros H1 N1 L1 H2 N2 L2. cbn [process do_includes]. rewrite H1.
+    destruct n1; try congruence; cbn [o_tree]; rewrite L1; rewrite H2;
+      destruct n2; try congruence; cbn [o_tree]; rewrite L2; reflexivity.
+  Qed.
+
+  (* the later file wins over the earlier one and over the document *)
+  Theorem include_chain2_later_wins k1 f1 k2 f2 doc n1 c1 n2 c2 k x :
+    tget k1 doc = Some (TLeaf n1) -> n1 <> PNone -> load_file f1 n1 = Ok c1 ->
+    tget k2 (combine doc c1) = Some (TLeaf n2) -> n2 <> PNone -> load_file f2 n2 = Ok c2 ->
+    NoDup (map fst c2) -> tget k c2 = Some (TLeaf x) ->
+    exists t, process load_file (ISchema [(k1, f1); (k2, f2)] []) doc = Ok t /\ tget k t = Some (TLeaf x).
+  Proof.
+    intros H1 N1 L1 H2 N2 L2 ND Hk. eexists; split.
+    - eapply include_chain2; eauto.
+    - rewrite merge_get by assumption. rewrite Hk. reflexivity.
+  Qed.
+
+  (* a key that only the earlier file sets survives the later merge *)
+  Theorem include_chain2_earlier_kept k1 f1 k2 f2 doc n1 c1 n2 c2 k :
+    tget k1 doc = Some (TLeaf n1) -> n1 <> PNone -> load_file f1 n1 = Ok c1 ->
+    tget k2 (combine doc c1) = Some (TLeaf n2) -> n2 <> PNone -> load_file f2 n2 = Ok c2 ->
+    NoDup (map fst c1) -> NoDup (map fst c2) -> tget k c2 = None ->
+    exists t, process load_file (ISchema [(k1, f1); (k2, f2)] []) doc = Ok t /\
+              tget k t = match tget k c1 with
+                         | None => tget k doc
+                         | Some v => Some (merge_val (tget k doc) v)
+                         end.
+  Proof.
+    intros H1 N1 L1 H2 N2 L2 ND1 ND2 Hk. eexists; split.
+    - eapply include_chain2; eauto.
+    - rewrite merge_get by assumption. rewrite Hk. apply merge_get; assumption.
+  Qed.
+
+  (* a later file that does not load fails the whole load, whatever the earlier ones merged *)
+  Theorem include_chain_fails a k fid b doc t1 n e :
+    do_includes load_file a doc = Ok t1 ->
+    tget k t1 = Some (TLeaf n) -> n <> PNone -> load_file fid n = Err e ->
+    process load_file (ISchema (a ++ (k, fid) :: b) []) doc = Err e.
+  Proof.
+    intros Ha Hk Hn Hl. cbn [process]. rewrite includes_app, Ha. cbn [do_includes]. rewrite Hk.
+    destruct n; try congruence; cbn [o_tree]; rewrite Hl; reflexivity.
+  Qed.
 End IncludeFacts.
 
 (* ---- non-vacuity ---- *)
@@ -178,4 +245,25 @@ Example merge_example :
   [(sa "a", TLeaf (PInt 1));
    (sa "m", TMap [(sa "x", TLeaf (PInt 1)); (sa "y", TLeaf (PInt 9)); (sa "z", TLeaf (PInt 3))]);
    (sa "b", TLeaf PNone)].
+Proof. vm_compute. reflexivity. Qed.
+
+(* the merge is a LEFT fold and not associative: with a map in the document, a leaf in the first file and a
+   map in the second, merging the files first and then over the document keeps the document's keys,
+   merging in the order of the code does not (the leaf in between has replaced the map) *)
+Example chain_not_associative :
+  let a := [(sa "m", TMap [(sa "x", TLeaf (PInt 1))])] in
+  let b := [(sa "m", TLeaf (PInt 2))] in
+  let c := [(sa "m", TMap [(sa "y", TLeaf (PInt 3))])] in
+  combine (combine a b) c = [(sa "m", TMap [(sa "y", TLeaf (PInt 3))])] /\
+  combine a (combine b c) = [(sa "m", TMap [(sa "x", TLeaf (PInt 1)); (sa "y", TLeaf (PInt 3))])].
+Proof. vm_compute. split; reflexivity. Qed.
+
+(* non-vacuity of the chain theorems: the first file names the second *)
+Example chain_example :
+  let lf := fun (fid : N) (n : pyval) =>
+    if pyval_eqb n (PStr (sa "one")) then Ok [(sa "inc2", TLeaf (PStr (sa "two"))); (sa "v", TLeaf (PInt 1)); (sa "w", TLeaf (PInt 1))]
+    else if pyval_eqb n (PStr (sa "two")) then Ok [(sa "v", TLeaf (PInt 2))]
+    else Err EValue in
+  process lf (ISchema [(sa "inc1", 1%N); (sa "inc2", 2%N)] []) [(sa "inc1", TLeaf (PStr (sa "one"))); (sa "v", TLeaf (PInt 0))]
+  = Ok [(sa "inc1", TLeaf (PStr (sa "one"))); (sa "v", TLeaf (PInt 2)); (sa "inc2", TLeaf (PStr (sa "two"))); (sa "w", TLeaf (PInt 1))].
 Proof. vm_compute. reflexivity. Qed.
